@@ -123,6 +123,8 @@ PlansSound(plans) == \A p \in plans : ~p.neg /\ p.fits /\ p.eq
 \* Split of the emission (C13), evaluated on residuals computed with big integers by the harness, so that emissions anywhere in
 \* the int64 range are covered: each recipient got exactly floor(emission * percentage / 100), the mint module kept less than 3
 SplitExact(sp) == sp.rs = 0 /\ sp.rd = 0 /\ sp.rp = 0 /\ sp.rem >= 0 /\ sp.rem <= MintDust
+\* the same for the collateral account (C15): balance minus the sum of the records, computed with big integers (prices above 2^31)
+CollExact(sp) == sp.collres = 0
 \* Stored files (C17 at whole-application level): the harness lists, per step, what is wrong with any stored file -- a listed
 \* prover key without proof record ("norecord"), a key listed twice ("dup"), more provers than the replication limit ("over"),
 \* the two file indexes disagreeing ("index"); creators are sent in lower- and upper-case spellings
